@@ -42,6 +42,7 @@ class Clock:
         self.budget = None
         self.fired = False
         self.installed = False
+        self.abort_stack = []
 
     def install(self):
         if self.installed:
@@ -60,6 +61,12 @@ class Clock:
             if code.co_name in ("__enter__", "__exit__"):
                 return None
             self.fired = True
+            self.abort_stack = []
+            fr = sys._getframe(1)  # pylint: disable=protected-access
+            while fr is not None and len(self.abort_stack) < 60:
+                if fr.f_code.co_filename.startswith(PKG_DIR):
+                    self.abort_stack.append(f"{os.path.basename(fr.f_code.co_filename)}:{fr.f_code.co_name}")
+                fr = fr.f_back
             raise LogicalBudgetExceeded(self.count)
         return None
 
@@ -229,6 +236,7 @@ def assemble(files, charset="bk", budget=None, wall=60.0, handler=None, reset=Tr
             except LogicalBudgetExceeded as ex:
                 out.cls = "nonterm"
                 out.exc = str(ex)
+                out.exc_where = ",".join(CLOCK.abort_stack[:40])
             except WallClockStall:
                 out.cls = "stall"
             except RecursionError as ex:
